@@ -706,3 +706,16 @@ SWEEP = ["serialization/test_aggregate.cpp",
          "serialization/test_vector.cpp",
          "serialization/test_message.cpp",
          "serialization/test_serializer.cpp"]
+
+
+# name anchors (validated by tools/rename_sweep.py; a vanished name is exit 2, see core.check_anchor_names)
+ANCHORS = {
+    'calculate_serialized_size_packed_field': ['^babylon::SerializationHelper(<|$)'],
+    'consume_unknown_field': ['^babylon::SerializationHelper(<|$)'],
+    'deserialize': ['^babylon::BasicSerializeTraits(<|$)', '^babylon::ReusableVector(<|$)', '^babylon::SerializationHelper(<|$)', '^babylon::SerializeTraits(<|$)'],
+    'deserialize_field': ['^babylon::SerializationHelper(<|$)'],
+    'deserialize_packed_field': ['^babylon::SerializationHelper(<|$)'],
+    'serialize': ['^babylon::BasicSerializeTraits(<|$)', '^babylon::ReusableVector(<|$)', '^babylon::SerializationHelper(<|$)', '^babylon::SerializeTraits(<|$)'],
+    'serialize_packed_field': ['^babylon::SerializationHelper(<|$)'],
+    'varint_size': ['^babylon::SerializationHelper(<|$)'],
+}
